@@ -294,7 +294,8 @@ def build(c: dict, seed: int, unsupported: Optional[Tuple[str, Any]] = None, pro
 
         def r(q, k, v):
             torch.manual_seed(c["rng"])
-            return F.scaled_dot_product_attention(q, k, v, scale=c["mult"] / c["d"], **kw)
+            kw_ = dict(kw, attn_mask=mask.to(q.dtype)) if mask is not None and mask.is_floating_point() else kw
+            return F.scaled_dot_product_attention(q, k, v, scale=c["mult"] / c["d"], **kw_)
         return Built(u, r, [q, k, v], ["query", "key", "value"], ["query", "key", "value"], dict(mask=mask))
     if op == "cross_entropy":
         V = c["V"]; B = c["B"]
@@ -321,7 +322,7 @@ def build(c: dict, seed: int, unsupported: Optional[Tuple[str, Any]] = None, pro
                 ukw = {}
                 kw = dict(kw, reduction=val)
         m = c["mult"]
-        return Built(lambda x: U.cross_entropy(x, t, mult=m, **kw, **ukw), lambda x: F.cross_entropy(x * m, t, **rkw), [x], ["input"], [],
+        return Built(lambda x: U.cross_entropy(x, t, mult=m, **kw, **ukw), lambda x: F.cross_entropy(x * m, t.to(x.dtype) if t.is_floating_point() else t, **rkw), [x], ["input"], [],
                      dict(target=t, kw=rkw))
     if op == "mse_loss":
         kw = {} if c["reduction"] == "default" else {"reduction": c["reduction"]}
@@ -373,6 +374,16 @@ def fit(y: torch.Tensor, r: torch.Tensor, floor: Optional[float] = None):
         return (0.0, float("inf"))
     res = ((y - s * r).abs().max() / (abs(s) * rmax)).item()
     return s, res
+
+
+def noise(r: torch.Tensor, r64: torch.Tensor) -> float:
+    """max deviation of a low-precision reference from its float64 evaluation, relative to the largest element"""
+    r = r.detach().to(D).flatten()
+    r64 = r64.detach().to(D).flatten()
+    m = r64.abs().max().item()
+    if r.numel() != r64.numel() or not math.isfinite(m) or m == 0:
+        return float("inf")
+    return ((r - r64).abs().max() / m).item()
 
 
 def tol_for(c: dict):
@@ -431,6 +442,21 @@ def probe(c: dict, want_bwd: bool = True, seeds: Optional[List[int]] = None, ups
         if not bool(torch.isfinite(yr.detach().to(D)).all()):
             P.status = "degenerate"
             return P
+        # low-precision dtypes: how far is the reference itself from its float64 evaluation on the same values?
+        # (different but equivalent operation orders round differently; where rounding dominates - cancellation,
+        # saturation - there is nothing to fit)
+        t64 = y64 = None
+        if c["dtype"] != "float64":
+            try:
+                t64 = [t.detach().to(D).requires_grad_() for t in bu.ts]
+                y64 = bu.r(*t64)
+                nz = noise(yr, y64)
+            except Exception:  # noqa: BLE001
+                t64 = y64 = None
+                nz = 0.0
+            if nz > tol[0] / 4:
+                P.status = "degenerate"
+                return P
         f = fit(yu, yr)
         if f is None:
             P.status = "degenerate"
@@ -445,7 +471,10 @@ def probe(c: dict, want_bwd: bool = True, seeds: Optional[List[int]] = None, ups
         P.s_fwd.append(s)
         if want_bwd:
             if csum is not None:
-                yr = build(csum, seed, prof=prof_i).r(*tr)
+                bsum = build(csum, seed, prof=prof_i)
+                yr = bsum.r(*tr)
+                if y64 is not None:
+                    y64 = bsum.r(*t64)
             gs: Dict[str, float] = {}
             for gi in range(upstream):
                 gup = rt(tuple(yu.shape), c["seedG"], "normal", yu.dtype, salt=1 + 2 * gi + si)
@@ -460,7 +489,13 @@ def probe(c: dict, want_bwd: bool = True, seeds: Optional[List[int]] = None, ups
                     from .runner import exc_bucket
                     P.bwd_fails.append((exc_bucket(f"bwd.raises:{op}", e), f"{type(e).__name__}: {e}"))
                     return P
-                for role, a, b_ in zip(bu.roles, gu, gr):
+                g64 = None
+                if y64 is not None:
+                    try:
+                        g64 = torch.autograd.grad(y64, t64, gup.to(D), allow_unused=True, retain_graph=True)
+                    except Exception:  # noqa: BLE001
+                        g64 = None
+                for ri, (role, a, b_) in enumerate(zip(bu.roles, gu, gr)):
                     if (a is None) != (b_ is None):
                         P.bwd_fails.append((f"bwd.presence:{op}:{role}", f"library grad {'missing' if a is None else 'present'}, reference {'missing' if b_ is None else 'present'}"))
                         continue
@@ -471,6 +506,8 @@ def probe(c: dict, want_bwd: bool = True, seeds: Optional[List[int]] = None, ups
                         continue
                     ff = fit(a, b_)
                     if ff is None:
+                        continue
+                    if g64 is not None and g64[ri] is not None and noise(b_, g64[ri]) > tol[3] / 4:
                         continue
                     if op == "rms_norm" and role == "input":
                         # float32 denominator (by design): the library's error is ~1e-7 x |g| |w| / rms(x); when the
